@@ -452,7 +452,7 @@ func (self Value) getByPath(pathes ...Path) (Value, []int) {
 		}
 	case proto.LIST:
 		et = desc.Elem().Type()
-		if s, err := p.SkipAllElements(desc.BaseId(), desc.IsPacked()); err != nil {
+		if s, err := p.SkipAllElementsWithType(desc.BaseId(), desc.IsPacked(), desc.Elem().WireType()); err != nil {
 			return errValue(errBehavior(err), "invalid list node.", err), address
 		} else {
 			size = s
@@ -989,7 +989,7 @@ func (self Value) FieldByName(name string) (v Value) {
 			typDesc := f.Type()
 			if typDesc.IsMap() || typDesc.IsList() {
 				it.p.Read = tagPos
-				if _, err := it.p.SkipAllElements(i, typDesc.IsPacked()); err != nil {
+				if _, err := it.p.SkipAllElementsWithType(i, typDesc.IsPacked(), typDesc.Elem().WireType()); err != nil {
 					return errValue(meta.ErrRead, "SkipAllElements in LIST/MAP failed", err)
 				}
 				s = tagPos
